@@ -865,11 +865,9 @@ func C03(c *core.Ctx) {
 		// the markers of the 3/5/9-octet forms, every decoder reads them as such
 		{
 			nOct := 0
-			// (std/encoding only: the signature-length patch of MakeData / MakeInterest writes
-			// byte(len(sigValue)) into a header that was sized for the signer's estimate — its
-			// correctness depends on estimate and result lying in the same form, a relation
-			// between two run-time numbers that holds for the shipped signers and is not decided)
-			for _, pkg := range []string{"std/encoding"} {
+			// (the packet builders too: since /repo 9a7b218 they patch the signature length with
+			// TLNum.EncodeInto at unchanged width instead of storing byte(len))
+			for _, pkg := range []string{"std/encoding", "std/ndn/spec_2022"} {
 				for _, fn := range p.FuncsIn(core.ModPath + "/" + pkg) {
 					file := p.File(fn.Pos())
 					if strings.HasSuffix(file, "_test.go") || strings.HasSuffix(file, "zz_generated.go") {
